@@ -3,7 +3,11 @@
 
   1. TLC checks the design (spec/Lifecycle.tla, code-shaped Step of ServerSession.handle + the property's phase
      tracker and clauses; a message = method x per-request-meta class x initialize-params class x spelling of the
-     _meta member names on the wire: plain / escaped solidus / \\uXXXX) on the whole (phase x message) table —
+     _meta member names on the wire: plain / escaped solidus / \\uXXXX x PRESENTATION of the metadata in the params
+     object: one exact `_meta` member / only a case variant of it / the exact member next to a case variant that
+     supplies the missing or overriding entries / duplicate exact members (the last decides, possibly null) / the
+     same three for the entries inside `_meta`; Lifecycle!Carried says which metadata each presentation carries
+     and Step, the tracker and the clauses look only at that) on the whole (phase x message) table —
      the joint state graph over the full alphabet, every row evaluated as a state predicate — and on every step of every sequence of core letters up to a
      bound.  The one documented departure of the code-shaped model from the property (lead 4: setLevel /
      subscribe / unsubscribe / roots-list-changed are ungated) is exported as a LEAD, not a verdict.
@@ -21,10 +25,11 @@ import vlib, graphwalk
 
 PID = "C06"
 TLC_WORKERS = 4
+GO_SHARDS = 4     # sequences replayed side by side by the harness (each in its own synctest bubble)
 CLAUSES = ["GateBeforeInit", "DuplicateInitRejected", "PrematureInitializedRejected", "RepeatedInitializedRejected", "FirstInitializedTakesEffect",
            "PingAlways", "ModernServedIffMetaComplete", "RemovedMethodsNotFound"]
-PROBES = [{"m": "tools/list", "mt": "none", "ip": "na", "sp": "plain"},
-          {"m": "notifications/initialized", "mt": "none", "ip": "na", "sp": "plain"}]
+PROBES = [{"m": "tools/list", "mt": "none", "ip": "na", "sp": "plain", "mk": "exact"},
+          {"m": "notifications/initialized", "mt": "none", "ip": "na", "sp": "plain", "mk": "exact"}]
 HARNESS = ["mcp/c06_lifecycle_test.go"]
 
 
@@ -36,6 +41,8 @@ def msg_name(l):
         s += "+meta=" + l["mt"]
         if l.get("sp", "plain") != "plain":   # spelling of the _meta keys on the wire
             s += "~" + l["sp"]
+        if l.get("mk", "exact") != "exact":   # presentation of the metadata in params (Lifecycle!Members)
+            s += "@" + l["mk"]
     return s
 
 
@@ -53,14 +60,16 @@ def sig_of(f, e):
     if inv == "GateBeforeInit":
         served = o["reply"] == "result" or o["h"]
         # one signature per method: the abstract failing case is "this method is served on a fresh legacy session"
-        return "preinit:%s:%s" % (l["m"], "served" if served else "state-changed")
+        # (plus the presentation of what is not per-request metadata, when it is not the ordinary one)
+        form = "" if l.get("mk", "exact") == "exact" or l["mt"] == "none" else "@" + l["mk"]
+        return "preinit:%s%s:%s" % (l["m"], form, "served" if served else "state-changed")
     if inv == "OneReply":
         return "reply:dup:%s" % msg_name(l)
     return "phase=%s:%s:%s" % (f.get("phase", "?"), msg_name(l), got_name(o))
 
 
 def letter_of(args):
-    return {"m": args[0], "mt": args[1], "ip": args[2], "sp": args[3]}
+    return {"m": args[0], "mt": args[1], "ip": args[2], "sp": args[3], "mk": args[4]}
 
 
 def table_sequences(dot, seed):
@@ -96,6 +105,10 @@ def table_sequences(dot, seed):
     return cells, walks, len(pred), ncells
 
 
+def lkey(l):
+    return (l["m"], l["mt"], l["ip"], l.get("sp", "plain"), l.get("mk", "exact"))
+
+
 def printed_seqs(res):
     return [p["seq"] for p in res.printed if isinstance(p, dict) and "seq" in p]
 
@@ -118,6 +131,12 @@ def run(tier, seed, replay):
         "the spelling of the _meta member names (literal, solidus written \\/, characters written \\uXXXX) is part of "
         "the message alphabet: all spellings are the same JSON value, so the property's clauses do not look at it and "
         "every spelling must be answered like the literal one; member VALUES are always written literally",
+        "which metadata a request carries is read the way every other member of the request is read: only the member "
+        "of params named exactly `_meta` counts (a member differing in letter case is an unknown member and is ignored, "
+        "alone or next to the exact one), of several exact members the last decides (null = no metadata), and the same "
+        "holds for the three entries inside `_meta`; in the duplicate presentations the earlier occurrences repeat only "
+        "keys the last occurrence writes again (a missing entry of the last one is an explicit null), so that 'the last "
+        "object decides' and 'the last entry of every key decides' coincide - the property does not choose between them",
         "subscriptions/listen (parks until cancelled) and batches are not in the alphabet; over HTTP no _meta naming "
         "a legacy version is sent (the stateful transport refuses any _meta protocolVersion before the session sees it)",
         "TLC exhaustive results: the full (joint state x letter) table; all core-letter sequences up to the stated length",
@@ -131,7 +150,8 @@ def run(tier, seed, replay):
     counts = {}
     if replay:
         rep = json.load(open(replay))["replay"]
-        seqs = [{"id": rep.get("id", "replay"), "tr": rep["tr"], "seq": [dict(l, sp=l.get("sp", "plain")) for l in rep["seq"]]}]
+        seqs = [{"id": rep.get("id", "replay"), "tr": rep["tr"],
+                 "seq": [dict(l, sp=l.get("sp", "plain"), mk=l.get("mk", "exact")) for l in rep["seq"]]}]
         hseed = rep.get("seed", seed)
     else:
         hseed = seed
@@ -146,11 +166,16 @@ def run(tier, seed, replay):
             raise vlib.MachineryError("the Lifecycle model violates %s on the table: design check failed\n%s" % (
                 res.violation, res.stdout[-1500:]))
         model_leads = [p for p in res.printed if isinstance(p, dict) and "lead" in p]
+        # what every letter carries, from the model (Lifecycle!Carried)
+        carried = {lkey(p["alpha"]): p["carried"] for p in res.printed if isinstance(p, dict) and "alpha" in p}
+        if not carried or any(lkey(l) not in carried for l in PROBES):
+            raise vlib.MachineryError("alphabet export incomplete: %d letters" % len(carried))
         nrows = len([p for p in res.printed if isinstance(p, dict) and "row" in p])
         cells, walks, nnodes, ncells = table_sequences(dot, seed)
         if nnodes != nrows or nnodes < 8:
             raise vlib.MachineryError("table graph: %d nodes, %d rows exported" % (nnodes, nrows))
-        counts.update(table_states=nnodes, table_cells=ncells, cover_walks=len(walks))
+        counts.update(table_states=nnodes, table_cells=ncells, cover_walks=len(walks), letters=len(carried),
+                      letters_by_presentation={k: sum(1 for a in carried if a[4] == k) for k in sorted({a[4] for a in carried})})
 
         # 2. all core sequences of the bounded length: design check on every step + export
         cfg = "Lifecycle_seq%d.cfg" % seqlen
@@ -192,7 +217,7 @@ def run(tier, seed, replay):
             return "io" if (i + seed) % 2 == 0 else "mem"
 
         def no_legacy_meta(s):
-            return all(l["mt"] != "legacy" for l in s)
+            return all(carried[lkey(l)] != "legacy" for l in s)
         for i, s in enumerate(cells):
             seqs.append({"id": "t%d" % i, "tr": raw_tr(i), "seq": s})
         if tier == "thorough":  # the table on the other raw transport as well
@@ -224,11 +249,16 @@ def run(tier, seed, replay):
     for f in (obs, obs + ".progress"):
         if os.path.exists(f):
             os.remove(f)
-    env = {"VERIF_IN": inp, "VERIF_OUT": obs, "VERIF_SEED": hseed, "VERIF_TIER": tier}
+    env = {"VERIF_IN": inp, "VERIF_OUT": obs, "VERIF_SEED": hseed, "VERIF_TIER": tier,
+           "VERIF_SHARDS": 1 if replay else GO_SHARDS}
     if replay:
         env["VERIF_RAW"] = 1
     rc, gout, wall = vlib.go_test("mcp", "^TestVerif_C06$", HARNESS, timeout=1500, env=env)
     vlib.go_must_build(rc, gout, PID)
+    if rc != 0 and env["VERIF_SHARDS"] != 1:
+        # the shards replay independent sequences side by side; one at a time tells which sequence was in flight
+        env["VERIF_SHARDS"] = 1
+        rc, gout, wall = vlib.go_test("mcp", "^TestVerif_C06$", HARNESS, timeout=1500, env=env)
     if rc != 0:
         inflight = ""
         try:
@@ -248,7 +278,7 @@ def run(tier, seed, replay):
 
     # 7. the monitor: verdict (clauses), drift (equality with Step), notes, premise counts
     fails, notes, prem = [], 0, {c: 0 for c in CLAUSES}
-    CH = 150000
+    CH = 250000
     starts = list(range(0, len(rows), CH))
     # cut only at sequence boundaries
     cuts = [0]
@@ -362,6 +392,6 @@ def run(tier, seed, replay):
         lead_cells = {(p["phase"], p["lead"]["m"], p["lead"]["mt"]) for p in model_leads}
         v.cov["model_leads"] = len(lead_cells)
         v.cov["model_leads_reproduced_on_real_code"] = len(lead_cells & failed_cells)
-        v.cov["model_lead_cells"] = sorted("%s:%s" % (p, msg_name({"m": m, "mt": mt, "ip": "na", "sp": "plain"})) for (p, m, mt) in lead_cells)
+        v.cov["model_lead_cells"] = sorted("%s:%s" % (p, msg_name({"m": m, "mt": mt, "ip": "na", "sp": "plain", "mk": "exact"})) for (p, m, mt) in lead_cells)
         v.cov["violating_cells_outside_model_leads"] = sorted("%s:%s+%s" % c for c in (failed_cells - lead_cells))
     return v.finish()
